@@ -76,8 +76,10 @@ func (f *ForResult) Push(value core.Value) {
 		return
 	}
 
+	// spread one level only: the elements of a nested loop's result are
+	// results themselves and must not be flattened again
 	elements.ForEach(func(i core.Value, _ int) bool {
-		f.Push(i)
+		f.itemList.Push(i)
 
 		return true
 	})
